@@ -161,7 +161,12 @@ impl Parser {
                 return Err(new_err(ty_span, &input.user_data().get_source_file_name(), "`Self` is only a valid type for associated functions, and not normal functions. (Hint: if trying to accept a callback function, use a function type like `fn(int) -> bool`)".to_owned()));
             }
 
-            ident.link_force_no_inherit(input.user_data(), ty)?;
+            // a caller that only wants the parameter types (the pre-walk of a class) must not find the parameters declared in ITS scope afterwards
+            if add_to_scope_dependencies {
+                ident.link_force_no_inherit(input.user_data(), ty)?;
+            } else {
+                ident.set_type_no_link(ty);
+            }
 
             result.push(ident);
         }
